@@ -41,6 +41,9 @@ class TvLike:
         self.data_type, self.integrity, self.value = dt, il, 5
 
 
+# `exec E`: how the caller spells enforce_static_checks ("d": not at all)
+ENF = {"1": True, "0": False, "d": True, "i1": 1, "i0": 0, "s1": "no", "s0": "", "n0": None}
+
 EXC = ["RuntimeError", "TypeError", "ValueError", "KeyError", "AttributeError", "WiringError", "ZeroDivisionError"]
 
 
@@ -194,6 +197,8 @@ class C16(Prop):
                     ent.append(f"{p}:raw:{k}")
                 elif x < 0.6:
                     ent.append(f"{p}:typedsub:{dt}:{il if rng.random() < 0.8 else rng.randrange(nI)}:{k}")
+                elif x < 0.63:
+                    ent.append(f"{p}:typedv:{dt}:{il}:{rng.choice(KINDS)}")
                 elif x < (0.96 if not wild else 0.85):
                     ent.append(f"{p}:typed:{dt}:{il}:{k}")
                 else:                                         # mislabelled: wrong type, lower or HIGHER integrity
@@ -226,7 +231,9 @@ class C16(Prop):
                     continue
                 x = rng.random()
                 k = rng.randrange(100)
-                if x < 0.06:
+                if x < 0.03:
+                    lines.append(f"ext {m} {p} typedv {dt} {rng.randrange(il, nI)} {rng.choice(KINDS)}")
+                elif x < 0.06:
                     lines.append(f"ext {m} {p} rawv {rng.choice(KINDS)}")
                 elif x < 0.5:
                     lines.append(f"ext {m} {p} raw {k}")
@@ -248,7 +255,7 @@ class C16(Prop):
                 lines.append(f"exec {show_bool(e)}")
             lines += self._spec_edits(rng, names, ins, outs, wires)
         lines.append(f"exec {show_bool(e)}")
-        lines.append(f"exec {show_bool(not e)}")
+        lines.append(f"exec {show_bool(not e)}" if rng.random() < 0.9 else f"exec {rng.choice(['i1', 'i0', 's1', 's0', 'n0'])}")
         if rng.random() < 0.15:
             lines.append("exec d")                            # enforce_static_checks left at its default
         if rng.random() < 0.12:
@@ -533,6 +540,8 @@ class C16(Prop):
                 for k in (1, 2, 3):
                     if tier == "quick" and (k == 3 or (k == 2 and enf == "0")):
                         continue
+                    if k == 3 and (enf == "0" or not pre):      # thorough: triples on the two-diagram base only
+                        continue
                     for seq in itertools.product(edits, repeat=k):
                         if pre == [] and any(e == ["swapdiag"] for e in seq) and k > 1:
                             continue
@@ -557,10 +566,16 @@ class C16(Prop):
             cases.append({"lines": ["mod 0 I 0:0:1 1:0:0 O 0:0:2 C", "mod 1 I 0:0:0 O C", "wire 0 0 1 0",
                                     f"ext 0 0 rawv {kd}", "ext 0 1 raw 3", f"handler 0 reenter 0:rawv:{kd}", "exec 1", "exec 1",
                                     "unwire 0 0 1 0", f"ext 1 0 rawv {kd}", "exec 1"], "note": "unusual payloads"})
-            cases.append({"lines": [f"cout rawv {kd} 0 1", f"cin rawv {kd} 0 2"], "note": "unusual payloads"})
+            cases.append({"lines": [f"cout rawv {kd} 0 1", f"cin rawv {kd} 0 2", f"cout typedv 0 1 {kd} 0 1", f"cin typedv 0 2 {kd} 0 1",
+                                    f"cout typedv 0 2 {kd} 0 1", f"cin typedv 0 0 {kd} 0 1", f"cin typedv 1 2 {kd} 0 1"],
+                          "note": "unusual payloads"})
+            for il in range(nI):
+                cases.append({"lines": ["mod 0 I 0:0:1 O 0:0:1 C", "mod 1 I 0:0:0 O C", "wire 0 0 1 0",
+                                        f"ext 0 0 typedv 0 {il} {kd}", f"handler 0 ret 0:typedv:0:{il}:{kd}", "exec 1", "exec 0"],
+                              "note": "labelled values with unusual payloads"})
         for s_ in labs:
             for h in labs:
-                for enf in ("1", "0"):
+                for enf in ("1", "0", "i1", "i0", "s1", "s0", "n0"):
                     cases.append({"lines": [f"mod 0 I O 0:{s_[0]}:{s_[1]} C 0", f"mod 1 I 0:{s_[0]}:0 O C 1", "wire 0 0 1 0",
                                             f"handler 0 ret 0:typedsub:{h[0]}:{h[1]}:3", f"exec {enf}"],
                                   "note": "subclass of TypedValue"})
@@ -743,6 +758,10 @@ class C16(Prop):
             return self._special(toks[1]), toks[2:]
         if toks[0] == "typed":
             return self.R.TypedValue(self.DT[int(toks[1])], self.IL[int(toks[2])], int(toks[3])), toks[4:]
+        if toks[0] == "typedv":
+            if toks[3] not in KINDS:
+                raise ValueError
+            return self.R.TypedValue(self.DT[int(toks[1])], self.IL[int(toks[2])], self._special(toks[3])), toks[4:]
         raise ValueError
 
     @staticmethod
@@ -888,6 +907,8 @@ class C16(Prop):
                         out[pname(p)] = (3 * s + v) % 1000 if v < 1000 else v
                     elif isinstance(v, str):
                         out[pname(p)] = self._special(v)        # a fresh object of that kind at every invocation
+                    elif isinstance(v.value, str):
+                        out[pname(p)] = R.TypedValue(v.data_type, v.integrity, self._special(v.value))
                     else:
                         out[pname(p)] = type(v)(v.data_type, v.integrity, (3 * s + v.value) % 1000)
                 if obj is None:
@@ -980,6 +1001,8 @@ class C16(Prop):
                         elif len(f) == 5 and f[1] in ("typed", "typedsub"):
                             cls = R.TypedValue if f[1] == "typed" else TVSub
                             entries.append((int(f[0]), cls(self.DT[int(f[2])], self.IL[int(f[3])], int(f[4]))))
+                        elif len(f) == 5 and f[1] == "typedv" and f[4] in KINDS:      # payload = the kind's name for now
+                            entries.append((int(f[0]), R.TypedValue(self.DT[int(f[2])], self.IL[int(f[3])], f[4])))
                     if kind not in ("raise", "retnone", "reenter"):
                         kind = "ret"
                     try:
@@ -1078,7 +1101,9 @@ class C16(Prop):
                     del calls[:]
                     del inner_stat[:]
                     depth[0] = 0
-                    enforce = t[1] == "1"
+                    if t[1] not in ENF:
+                        raise ValueError
+                    enforce = ENF[t[1]]        # the argument as the caller writes it: a bool, or a truthy / falsy non-bool
                     extarg = {k: dict(v) for k, v in ext.items()} or None
                     if nexec[0] % 4 < 2 and ext:
                         extarg = ext      # the caller's own dict object, handed over again at later calls
@@ -1093,7 +1118,7 @@ class C16(Prop):
                     else:
                         kind, val = self._bounded(lambda: exe.execute(enforce_static_checks=enforce, external_inputs=extarg))
                     cs = list(calls)
-                    x = {"calls": cs, "enforce": enforce, "inner": list(inner_stat), "mut": set(mut_mods[which])}
+                    x = {"calls": cs, "enforce": bool(enforce), "inner": list(inner_stat), "mut": set(mut_mods[which])}
                     cstr = "[" + ";".join(f"{n}({self._show_tvs(s)})" for n, s in cs) + "]"
                     if inner_stat:
                         cstr += " inner=[" + ";".join(inner_stat) + "]"
@@ -1318,7 +1343,7 @@ class C16(Prop):
                         f = z.split(":")
                         if len(f) == 3 and f[1] in ("raw", "rawv"):
                             ent.append((int(f[0]), None))
-                        elif len(f) == 5 and f[1] in ("typed", "typedsub"):
+                        elif len(f) == 5 and f[1] in ("typed", "typedsub", "typedv"):
                             ent.append((int(f[0]), (int(f[2]), int(f[3]))))
                     first = {}
                     for p, v in ent:
@@ -1350,14 +1375,15 @@ class C16(Prop):
                 elif t[1] == "rawv":
                     want = f"ok {t[3]}/{t[4]}/{1000 + KINDS.index(t[2])}"
                 else:
-                    a, b, k, c, dd = map(int, t[2:7])
+                    a, b, c, dd = int(t[2]), int(t[3]), int(t[5]), int(t[6])
+                    k = 1000 + KINDS.index(t[4]) if t[1] == "typedv" else int(t[4])
                     good = a == c and (b == dd if op == "cout" else b >= dd)
                     want = f"ok {a}/{b}/{k}" if good else "raise:WiringError"
                 if o != want:
                     V("label_guard_" + op, want, o, idx)
             elif op in ("exec", "exec2") and not open1:
                 # "d" = default argument: the text promises nothing about wires that bypassed connect then
-                self._oracle_exec(V, idx, extra[idx], None if t[1] == "d" else t[1] == "1", mods, wires,
+                self._oracle_exec(V, idx, extra[idx], None if t[1] == "d" else bool(ENF[t[1]]), mods, wires,
                                   handlers if op == "exec" else handlers_2, ext, mutset if op == "exec" else mutset_2)
         return out
 
